@@ -265,6 +265,8 @@ pub struct Pcap {
     pub header: RefCell<PcapGlobalHeader>,
     #[allow(unused)]
     ts_format: PcapTsFormat,
+    // A malformed record ends the stream: every later read reports the same error
+    failed: RefCell<Option<(io::ErrorKind, String)>>,
 }
 
 impl fmt::Display for Pcap {
@@ -404,6 +406,7 @@ impl Pcap {
             file,
             header: RefCell::new(global_header),
             ts_format,
+            failed: RefCell::new(None),
         })
     }
 
@@ -431,6 +434,7 @@ impl Pcap {
             file,
             header: RefCell::new(global_header),
             ts_format: PcapTsFormat::MicroSeconds,
+            failed: RefCell::new(None),
         })
     }
 
@@ -460,11 +464,30 @@ impl Pcap {
             file,
             header: RefCell::new(global_header),
             ts_format: PcapTsFormat::MicroSeconds,
+            failed: RefCell::new(None),
         })
     }
 
     /// Read next packet from a pcap file
     pub fn next_packet(&self) -> io::Result<Rc<PcapPacket>> {
+        if let Some((kind, msg)) = self.failed.borrow().as_ref() {
+            return Err(io::Error::new(*kind, msg.clone()));
+        }
+        let result = self.read_packet();
+        if let Err(e) = &result {
+            if e.kind() == io::ErrorKind::InvalidData {
+                *self.failed.borrow_mut() = Some((e.kind(), e.to_string()));
+            }
+        }
+        result
+    }
+
+    /// True when an earlier read met a malformed record
+    pub fn has_failed(&self) -> bool {
+        self.failed.borrow().is_some()
+    }
+
+    fn read_packet(&self) -> io::Result<Rc<PcapPacket>> {
         let mut packet_header_data = [0u8; 16]; // Size of pcap packet header
 
         match self.file.as_ref() {
